@@ -332,6 +332,7 @@ theorem closedAt_closeConnectionSocket (s : St) (cid : Nat) (r : Reason) (h : s.
 @[simp] theorem stv_crashReader (s : St) (cid : Nat) (e : String) : (crashReader s cid e).stv = s.stv :=
   stv_modConn_tame _ _ _ (by tame)
 
+set_option maxHeartbeats 1000000 in
 theorem LInv_receiveCer (s : St) (cid : Nat) (m : AMsg) (info : MsgInfo) (h : LInv s) : LInv (receiveCer s cid m info).1 := by
   unfold receiveCer
   have he := fun hn => LInv_cerNameAndElect s cid hn h
@@ -344,6 +345,7 @@ theorem LInv_receiveCer (s : St) (cid : Nat) (m : AMsg) (info : MsgInfo) (h : LI
     | exact LInv_sendMessage _ _ _ _ (hm _ _ (he _) (by tame))
     | exact LInv_sendMessage _ _ _ _ (LInv_flagReady _ _ (LInv_assignPeerConnection _ _ (hm _ _ (he _) (by tame))))
     | split
+    | exact hm _ _ (he _) (by tame)
     | dsimp only)
 
 @[simp] theorem connections_receiveCer (s : St) (cid : Nat) (m : AMsg) (info : MsgInfo) :
